@@ -105,17 +105,18 @@ def afterStack (b : Buf) (t : DThread) : Buf :=
   | some (_, bs) => b.writeAll bs
   | none => b
 
-def afterWindow (b1 : Buf) (t : DThread) : Option Buf :=
+def afterWindow (b1 : Buf) (t : DThread) : Option (Buf × Nat) :=
   match t.window with
-  | some (_, ws) => (Arr.allocFromArray b1 (ws.map (fun x => [x])) 1).map (·.1)
-  | none => some b1
+  | some (_, ws) => (Arr.allocFromArray b1 (ws.map (fun x => [x])) 1).map (fun r => (r.1, r.2.location.rva))
+  | none => some (b1, b1.position)
 
-def opThreadAppend (b : Buf) (t : DThread) : Option (Buf × Nat × Nat) :=
+/-- returns the buffer and the locations the operations returned: of the stack, of the window, of the context -/
+def opThreadAppend (b : Buf) (t : DThread) : Option (Buf × Nat × Nat × Nat) :=
   match afterWindow (afterStack b t) t with
   | none => none
-  | some b2 =>
+  | some (b2, windowRva) =>
     match Slot.allocWithVal b2 t.ctx with
-    | some (b3, s) => some (b3, b.position, s.location.rva)
+    | some (b3, s) => some (b3, b.position, windowRva, s.location.rva)
     | none => none
 
 theorem flatten_singletons (ws : Bytes) : (ws.map (fun x => [x])).flatten = ws := by
@@ -124,7 +125,7 @@ theorem flatten_singletons (ws : Bytes) : (ws.map (fun x => [x])).flatten = ws :
   | cons a r ih => simp [ih]
 
 theorem opThreadAppend_spec (b : Buf) (t : DThread) (hb : b.len + t.blob.length < 2 ^ 32) :
-    opThreadAppend b t = some (⟨b.inner ++ t.blob⟩, b.len, t.ctxRva b.len) := by
+    opThreadAppend b t = some (⟨b.inner ++ t.blob⟩, b.len, b.len + t.stackLen, t.ctxRva b.len) := by
   have hbl : t.blob.length = t.stackBytes.length + t.windowBytes.length + t.ctx.length := by
     simp [DThread.blob, Nat.add_assoc]
   have e1 : t.stackBytes.length = t.stackLen := by
@@ -136,18 +137,18 @@ theorem opThreadAppend_spec (b : Buf) (t : DThread) (hb : b.len + t.blob.length 
     cases t.stack with
     | none => simp
     | some x => rfl
-  have h2 : afterWindow ⟨b.inner ++ t.stackBytes⟩ t = some ⟨b.inner ++ t.stackBytes ++ t.windowBytes⟩ := by
+  have h2 : afterWindow ⟨b.inner ++ t.stackBytes⟩ t = some (⟨b.inner ++ t.stackBytes ++ t.windowBytes⟩, b.len + t.stackLen) := by
     unfold afterWindow
     cases hw : t.window with
-    | none => simp [DThread.windowBytes, hw]
+    | none => simp [DThread.windowBytes, hw, Buf.position, Buf.len, e1]
     | some x =>
       obtain ⟨wa, ws⟩ := x
       have hwb : t.windowBytes = ws := by simp [DThread.windowBytes, hw]
-      obtain ⟨b', a, ha, hin, _⟩ := C16_allocFromArray ⟨b.inner ++ t.stackBytes⟩ (ws.map (fun x => [x])) 1
+      obtain ⟨b', a, ha, hin, hloc⟩ := C16_allocFromArray ⟨b.inner ++ t.stackBytes⟩ (ws.map (fun x => [x])) 1
         (by intro v hv; simp only [List.mem_map] at hv; obtain ⟨y, _, rfl⟩ := hv; rfl)
         (by simp [Buf.len] at hb ⊢; rw [hwb] at hbl; omega)
-      simp only [ha, Option.map_some, hwb]
-      cases b'; simp at hin; simp [hin, flatten_singletons]
+      simp only [ha, Option.map_some, hwb, hloc]
+      cases b'; simp at hin; simp [hin, flatten_singletons, Buf.len, e1]
   obtain ⟨b3, s, h3, hin3, hl3⟩ := C16_allocWithVal ⟨b.inner ++ t.stackBytes ++ t.windowBytes⟩ t.ctx
     (by simp [Buf.len] at hb ⊢; omega)
   unfold opThreadAppend
@@ -157,42 +158,57 @@ theorem opThreadAppend_spec (b : Buf) (t : DThread) (hb : b.len + t.blob.length 
   · cases b3; simp at hin3; simp [hin3, DThread.blob]
   · simp [Buf.position, Buf.len, DThread.ctxRva, e1, e2, Nat.add_assoc]
 
+/-- the writer's state besides the buffer: `config.memory_blocks` and `config.crashing_thread_context` -/
+structure WSt where
+  blocks : List Desc
+  ctc : CTC
+
 /-- `thread_list_stream::write` as builder operations: count, reserved record array, then per thread the appends of
-    `opThreadAppend` followed by `set_value_at(record, idx)` -/
-def opThreadLoop (arr : Arr) : Buf → Nat → List DThread → Option Buf
-  | b, _, [] => some b
-  | b, k, t :: ts =>
+    `opThreadAppend`, the registration of its stack / window as memory blocks, the crashing-thread context for the
+    blamed thread, and `set_value_at(record, idx)` -/
+def opThreadLoop (blamed : Nat) (hasCrash : Bool) (arr : Arr) : Buf → Nat → List DThread → WSt → Option (Buf × WSt)
+  | b, _, [], w => some (b, w)
+  | b, k, t :: ts, w =>
     match opThreadAppend b t with
     | none => none
-    | some (b1, stackRva, ctxRva) =>
+    | some (b1, stackRva, windowRva, ctxRva) =>
       let record :=
         le 4 t.tid ++ le 4 0 ++ le 4 0 ++ le 4 0 ++ le 8 0 ++
         le 8 (match t.stack with | some (s, _) => s | none => t.sp) ++ le 4 t.stackLen ++ le 4 stackRva ++
         le 4 t.ctx.length ++ le 4 ctxRva
+      let blocks := w.blocks ++
+        (match t.stack with | some (s, bs) => [⟨s, bs.length, stackRva⟩] | none => []) ++
+        (match t.window with | some (s, ws) => [⟨s, ws.length, windowRva⟩] | none => [])
+      let ctc := if t.tid = blamed then
+          (if hasCrash then CTC.crashContext (t.ctx.length, ctxRva) else CTC.crashContextPlusAddress (t.ctx.length, ctxRva) t.ip)
+        else w.ctc
       match arr.setValueAt b1 record k with
-      | some b2 => opThreadLoop arr b2 (k + 1) ts
+      | some b2 => opThreadLoop blamed hasCrash arr b2 (k + 1) ts ⟨blocks, ctc⟩
       | none => none
 
-def opThreadList (b : Buf) (ts : List DThread) : Option (Buf × DirEnt) :=
+def opThreadList (blamed : Nat) (hasCrash : Bool) (b : Buf) (ts : List DThread) (w : WSt) : Option (Buf × DirEnt × WSt) :=
   match Slot.allocWithVal b (le 4 ts.length) with
   | none => none
   | some (b1, hdr) =>
     let (b2, arr) := Arr.allocArray b1 ts.length 48
-    match opThreadLoop arr b2 0 ts with
-    | some b3 => some (b3, ⟨ST_THREAD_LIST, hdr.location.size + arr.location.size, hdr.location.rva⟩)
+    match opThreadLoop blamed hasCrash arr b2 0 ts w with
+    | some (b3, w') => some (b3, ⟨ST_THREAD_LIST, hdr.location.size + arr.location.size, hdr.location.rva⟩, w')
     | none => none
 
 theorem threadRec_len48 : ∀ (p : Nat) (t : DThread), (threadRec p t).length = 48 := threadRec_length
 
-/-- the loop of the thread-list writer, for every thread list: records into their slots, blobs at the end -/
-theorem opThreadLoop_spec (arr : Arr) (pre D S : Bytes) (ts : List DThread) (k : Nat)
+/-- the loop of the thread-list writer, for every thread list: records into their slots, blobs at the end, the
+    blocks and the crashing-thread context as the closed form computes them -/
+theorem opThreadLoop_spec (blamed : Nat) (hasCrash : Bool) (arr : Arr) (pre D S : Bytes) (ts : List DThread) (k : Nat) (w : WSt)
     (hpos : arr.position = pre.length) (hsz : arr.sz = 48) (hD : D.length = 48 * k)
     (hsmall : pre.length + D.length + 48 * ts.length + S.length + (threadBlobs ts).length < 2 ^ 32) :
-    opThreadLoop arr ⟨pre ++ D ++ zeros (48 * ts.length) ++ S⟩ k ts =
-      some ⟨pre ++ D ++ recsGen threadRec (fun t => t.blob.length) (pre.length + D.length + 48 * ts.length + S.length) ts ++
-        S ++ threadBlobs ts⟩ := by
-  induction ts generalizing D S k with
-  | nil => simp [opThreadLoop, recsGen, zeros, threadBlobs]
+    opThreadLoop blamed hasCrash arr ⟨pre ++ D ++ zeros (48 * ts.length) ++ S⟩ k ts w =
+      some (⟨pre ++ D ++ recsGen threadRec (fun t => t.blob.length) (pre.length + D.length + 48 * ts.length + S.length) ts ++
+        S ++ threadBlobs ts⟩,
+        ⟨w.blocks ++ threadBlocksAt (pre.length + D.length + 48 * ts.length + S.length) ts,
+         ctcAt blamed hasCrash (pre.length + D.length + 48 * ts.length + S.length) ts w.ctc⟩) := by
+  induction ts generalizing D S k w with
+  | nil => simp [opThreadLoop, recsGen, zeros, threadBlobs, threadBlocksAt, ctcAt]
   | cons t r ih =>
     have hl : (threadBlobs (t :: r)).length = t.blob.length + (threadBlobs r).length := by simp [threadBlobs]
     rw [hl] at hsmall
@@ -213,17 +229,25 @@ theorem opThreadLoop_spec (arr : Arr) (pre D S : Bytes) (ts : List DThread) (k :
     have hrl := threadRec_length (pre.length + D.length + 48 * (r.length + 1) + S.length) t
     have hD' : (D ++ threadRec (pre.length + D.length + 48 * (r.length + 1) + S.length) t).length = 48 * (k + 1) := by
       rw [List.length_append, hrl, hD, Nat.mul_succ]
-    rw [ih (D ++ threadRec (pre.length + D.length + 48 * (r.length + 1) + S.length) t) (S ++ t.blob) (k + 1) hD'
+    rw [ih (D ++ threadRec (pre.length + D.length + 48 * (r.length + 1) + S.length) t) (S ++ t.blob) (k + 1) _ hD'
       (by simp only [List.length_append, hrl]; omega)]
-    have := recsGen_step_eq threadRec DThread.blob 48 threadRec_len48 pre D S t r
-    unfold threadBlobs
-    rw [this]
+    have hstep := recsGen_step_eq threadRec DThread.blob 48 threadRec_len48 pre D S t r
+    have epos : pre.length + (D ++ threadRec (pre.length + D.length + 48 * (r.length + 1) + S.length) t).length +
+        48 * r.length + (S ++ t.blob).length =
+        pre.length + D.length + 48 * (r.length + 1) + S.length + t.blob.length := by
+      simp only [List.length_append, hrl]; omega
+    unfold threadBlobs at hstep ⊢
+    rw [hstep, epos]
+    simp only [threadBlocksAt, ctcAt, List.append_assoc]
+    rfl
 
 /-- **Refinement (thread list).** `thread_list_stream::write`, as the builder operations it performs, appends exactly
-    the thread-list stage of the image model and returns its directory entry — for every thread list. -/
-theorem Refine_thread_list (b : Buf) (ts : List DThread)
+    the thread-list stage of the image model, returns its directory entry, registers exactly the closed form's memory
+    blocks and leaves exactly its crashing-thread context — for every thread list. -/
+theorem Refine_thread_list (blamed : Nat) (hasCrash : Bool) (b : Buf) (ts : List DThread) (w : WSt)
     (hb : b.len + 4 + 48 * ts.length + (threadBlobs ts).length < 2 ^ 32) :
-    opThreadList b ts = some (⟨b.inner ++ threadListBody b.len ts⟩, ⟨ST_THREAD_LIST, 4 + 48 * ts.length, b.len⟩) := by
+    opThreadList blamed hasCrash b ts w = some (⟨b.inner ++ threadListBody b.len ts⟩, ⟨ST_THREAD_LIST, 4 + 48 * ts.length, b.len⟩,
+      ⟨w.blocks ++ threadBlocksAt (b.len + 4 + 48 * ts.length) ts, ctcAt blamed hasCrash (b.len + 4 + 48 * ts.length) ts w.ctc⟩) := by
   obtain ⟨b1, hdr, h1, hb1, hl1⟩ := C16_allocWithVal b (le 4 ts.length) (by simp; omega)
   have hlen1 : b1.len = b.len + 4 := by simp [Buf.len, hb1]
   obtain ⟨ha1, ha2⟩ := C16_allocArray b1 ts.length 48 (by rw [hlen1]; omega)
@@ -245,11 +269,15 @@ theorem Refine_thread_list (b : Buf) (ts : List DThread)
       simp [hb1, e2]
     have hb2 : b2 = ⟨(b.inner ++ le 4 ts.length) ++ [] ++ zeros (48 * ts.length) ++ []⟩ := by
       cases b2; simp at ha1; simp [ha1, hb1, Nat.mul_comm]
-    rw [hb2, opThreadLoop_spec arr (b.inner ++ le 4 ts.length) [] [] ts 0 harr.1 harr.2 (by simp)
+    rw [hb2, opThreadLoop_spec blamed hasCrash arr (b.inner ++ le 4 ts.length) [] [] ts 0 w harr.1 harr.2 (by simp)
       (by simp [Buf.len] at hb ⊢; omega)]
     simp only [hl1, ha2, hlen1]
+    have epos : (b.inner ++ le 4 ts.length).length + ([] : Bytes).length + 48 * ts.length + ([] : Bytes).length =
+        b.len + 4 + 48 * ts.length := by simp [Buf.len]
+    rw [epos]
     congr 2
     · simp [threadListBody, threadRecs_eq, Buf.len, List.append_assoc, Nat.add_assoc]
-    · simp; omega
+    · congr 1
+      simp; omega
 
 end Mdw
